@@ -85,18 +85,23 @@ def replay_one(item):
             (ores, v) = open_view(data, _TAB)
             m['ores'] = ores
             m['o'] = v
-            if v is not None and _OPTS.get('decode', True):
+            if _OPTS.get('decode', True):
+                # the independent decoder looks at every written image, whether or not the library
+                # itself can open it
                 rep = iso9660.decode(data)
-                v['dec'] = dec_obs(rep, _TAB, data)
-                if fq is not None:
-                    v['dec']['fq'] = fq
+                dec = dec_obs(rep, _TAB, data)
+                if v is not None:
+                    v['dec'] = dec
+                    if fq is not None:
+                        v['dec']['fq'] = fq
                 every = _OPTS.get('image_every', 0)
-                if every and (zlib.crc32(str(tid).encode()) % every) == 0:
-                    bits = [x['x'] for x in v['dec']['iso'] if x['b'].startswith('bit:')]
+                if every and ((zlib.crc32(str(tid).encode()) % every) == 0 or v is None):
+                    bits = [x['x'] for x in dec['iso'] if x['b'].startswith('bit:')]
                     extra['item'] = images.image_item(
                         str(tid), data, wlog, bit_sectors=bits, report=rep,
                         do_remaster=(zlib.crc32(str(tid).encode()) % (every * _OPTS.get('remaster_every', 1))) == 0,
-                        expect={'joliet': v['cfg']['joliet'], 'level': acts[0]['cfg']['level'] if 'cfg' in acts[0] else 1})
+                        expect={'joliet': (v['cfg']['joliet'] if v is not None else acts[0].get('cfg', {}).get('joliet', 0)),
+                                'level': acts[0]['cfg']['level'] if 'cfg' in acts[0] else 1})
                     extra['sha'] = hashlib.sha256(data).hexdigest()
             if _OPTS.get('keep_image'):
                 extra['image'] = data
